@@ -5,6 +5,8 @@ CONSTANTS Variant = "ok"
  MCTs = {3}
  MCVs = {1}
  PolyMode = "most"
+ MaxRedel = 0
  OrderMode = "canon"
-INVARIANTS TypeOK NoFailure ThresholdIsT Agreement KeyedByShareIdx OwnShareMatches GroupKeyIsSum AnyTRecover AnyTSign BelowThresholdSafe
+INVARIANTS TypeOK CountsDistinct NoFailure ThresholdIsT Agreement KeyedByShareIdx OwnShareMatches GroupKeyIsSum AnyTRecover AnyTSign BelowThresholdSafe
+PROPERTIES RedeliveryNoEffect BarrierComplete
 CHECK_DEADLOCK TRUE
